@@ -51,7 +51,7 @@ def binary(engine, tier, flavour):
 
 def cov_exclude(engine):
     """configurations left out of the -O0 coverage slice (too slow unoptimised)"""
-    return "#huge,#big,#enum,#sweep" if engine.startswith("static_") else ("#enum" if engine == "dynamic" else "")
+    return "#huge,#big,#enum,#sweep,#segs" if engine.startswith("static_") else ("#enum" if engine == "dynamic" else "")
 
 
 def R(engine, flavour, cases, **kw):
